@@ -119,6 +119,7 @@ func TestExplore(t *testing.T) {
 		cfg := sc.Cfg
 		cfg.Desc = p.V["desc"] == 1
 		cfg.LazyStart = p.V["lazy"] == 1
+		AllOpts.Store(p.V["opts"] == 1)
 		ex.Run = func(prefix []int, fps []uint64) *vsched.Exec {
 			return vsched.RunOnce(t, cfg, prefix, fps, func(s *vsched.Sched) { sc.Body(s, p) })
 		}
@@ -231,6 +232,7 @@ func TestReplay(t *testing.T) {
 	cfg := sc.Cfg
 	cfg.Desc = rec.Param.V["desc"] == 1
 	cfg.LazyStart = rec.Param.V["lazy"] == 1
+	AllOpts.Store(rec.Param.V["opts"] == 1)
 	cfg.Trace = os.Getenv("VNOTRACE") == ""
 	if os.Getenv("VPRE") != "" {
 		vsched.RunOnce(t, sc.Cfg, nil, nil, func(s *vsched.Sched) { sc.Body(s, rec.Param) })
@@ -264,6 +266,7 @@ func TestFreeRun(t *testing.T) {
 		for i := 0; i < runs; i++ {
 			cfg := sc.Cfg
 			cfg.FreeRun = true
+			AllOpts.Store(p.V["opts"] == 1)
 			x := vsched.RunOnce(t, cfg, nil, nil, func(s *vsched.Sched) { sc.Body(s, p) })
 			n++
 			if x.Panic != "" {
@@ -317,6 +320,7 @@ func TestRegressions(t *testing.T) {
 		cfg := sc.Cfg
 		cfg.Desc = prm.V["desc"] == 1
 		cfg.LazyStart = prm.V["lazy"] == 1
+		AllOpts.Store(prm.V["opts"] == 1)
 		var bad []string
 		n := 0
 		ex := &vsched.Explorer{Bound: c.bound}
